@@ -766,6 +766,13 @@ class ExprMixin:
                     out.append((s2, Exc(KeyError)) if b else
                                (s2, SRef(v, self.ref_field_classes(obj.field + "[]"))))
                 return out
+            if obj.kind == "map[key,ref]":
+                v = z3.Select(c, self.elem_key(st, key))
+                out = []
+                for s2, b in self.branch(st, v == NULL, "KeyError"):
+                    out.append((s2, Exc(KeyError)) if b else
+                               (s2, SRef(v, self.ref_field_classes(obj.field + "[]"))))
+                return out
             if obj.kind in ("seq[ref]", "seq[str]"):
                 i = zint(key)
                 n = z3.Length(c)
